@@ -652,7 +652,9 @@ class Text(JupyterMixin):
         pos = 0
         if tab_size is None:
             tab_size = self.tab_size
-        assert tab_size is not None
+        if tab_size is None:
+            # a Text built with tab_size=None leaves the choice to the console; without one, the default
+            tab_size = 8
         result = self.blank_copy()
         append = result.append
 
